@@ -283,8 +283,10 @@ fn make_shards(num_shards: usize, page_cache_size: usize) -> Vec<CacheShard> {
                 fixed_level_cache: HashMap::with_hasher(FxBuildHasher::default()),
                 cached: LruCache::unbounded_with_hasher(FxBuildHasher::default()),
             }),
-            // UNWRAP: both factors are non-zero
-            page_limit: NonZeroUsize::new(page_limit_per_root_child * count).unwrap(),
+            // a cache size below 1 MiB leaves no page per root child: such a shard keeps a single
+            // evictable page (pages in use by an ongoing update are never evicted anyway).
+            // UNWRAP: at least 1
+            page_limit: NonZeroUsize::new((page_limit_per_root_child * count).max(1)).unwrap(),
         })
         .collect()
 }
